@@ -50,7 +50,11 @@ class Ctx:
                                   "impl": [decode_line(l)[:200] for l in impl.get(cid, [])[:40]]})
 
     # ---- sequential differential stream
-    def seq(self, stream, cases, relevant=None, triggers=(), monitor=None, always_monitor=False, model_free=False):
+    def seq(self, stream, cases, relevant=None, triggers=(), monitor=None, always_monitor=False, model_free=False,
+            alt=None):
+        """alt: ops -> ops or None; a second reading of a case that the model may be given when the first one
+        disagrees with the implementation (real-time effects the case cannot pin down, e.g. how many passes a push
+        loop completed in its time slot); the case counts as a disagreement only if both readings disagree."""
         tag = "%s-%s" % (self.pid, stream)
         if model_free:
             # a stream with ops the sequential model has no counterpart for (CANCEL at a chosen scheduler
@@ -61,6 +65,24 @@ class Ctx:
             bad, impl, model = [], parse_results(os.path.join(d, "impl.out")), {}
         else:
             bad, impl, model = seqdiff(tag, cases, relevant)
+            if bad and alt:
+                alts = [(cid, alt(ops)) for cid, ops, _, _, _ in bad]
+                alts = [(cid, o) for cid, o in alts if o]
+                if alts:
+                    d = workdir(tag + "-alt")
+                    ap, ao = os.path.join(d, "cases.txt"), os.path.join(d, "model.out")
+                    write_cases(ap, alts)
+                    run_model_seq(ap, ao)
+                    am = parse_results(ao)
+                    still = []
+                    for cid, ops, idx, a, b in bad:
+                        o2 = dict(alts).get(cid)
+                        if o2 is not None and diff_case(ops, a, am.get(cid, []), relevant) is None:
+                            self.stats.setdefault("alt_readings", 0)
+                            self.stats["alt_readings"] += 1
+                            continue
+                        still.append((cid, ops, idx, a, b))
+                    bad = still
         self.note_cases(stream, cases, impl, triggers)
         self.stats["traces"] += len(cases) - len(bad)
         out = []
@@ -1312,8 +1334,21 @@ reg("C08", [eng_data_random(M.mon_order, {"PUB"}, streams=True, tag="data-stream
 
 def eng_push(ctx):
     cases = gen.push_cases(ctx.seed, ctx.n(160, 1500))
+
+    def one_pass_fewer(ops):
+        # LOOP <interval> <rounds> runs the real push loop for rounds*interval + interval/2 of real time: rounds+1
+        # passes on a responsive machine, one fewer when the last tick comes late
+        out, hit = [], False
+        for o in ops:
+            t = o.split(" ")
+            if t[0] == "LOOP" and int(t[2]) > 0:
+                out.append("LOOP %s %d" % (t[1], int(t[2]) - 1))
+                hit = True
+            else:
+                out.append(o)
+        return out if hit else None
     out = ctx.seq("push", cases, relevant={"ROUND", "LOOP", "REG", "STATS", "PULL", "CS", "DS", "PUB"},
-                  triggers={"ROUND"}, monitor=M.mon_push)
+                  triggers={"ROUND"}, monitor=M.mon_push, alt=one_pass_fewer)
     if out:
         return out
     # endpoints that never answer: each such pass costs 20 s of real time (the cases run in parallel)
